@@ -202,6 +202,55 @@ def run(chk):
                       gen_expr=core.unesc(real[i].split("\t")[4]), gen_stmts=core.unesc(real[i].split("\t")[3]))
     chk.bump("oracle:v8-evaluations", len(meta))
     chk.bump("oracle:v8-mismatches", nbad)
+    literal_stream(chk, runtime)
+
+
+LITERALS = [
+    "0", "7", "2147483647", "2147483648", "4294967295", "4294967296", "9007199254740991", "9007199254740992", "9007199254740993", "9223372036854775807",
+    "9223372036854775808", "9223372036854775809", "18446744073709551615", "18446744073709551616", "18446744073709551617", "1000000000000000000000",
+    "123456789012345678901234567890", "0x0", "0xff", "0XFF", "0xFFFFFFFF", "0x100000000", "0x1FFFFFFFFFFFFF", "0x20000000000001", "0x7FFFFFFFFFFFFFFF",
+    "0x8000000000000000", "0x8000000000000001", "0xFFFFFFFFFFFFFFFF", "0xffffffffffffffff", "0x10000000000000000", "0x1ffffffffffffffffff", "0xabcdefABCDEF",
+    "017", "0777", "00", "0777777777777777777777", "01000000000000000000000", "01000000000000000000001", "01777777777777777777777", "02000000000000000000000",
+    "0377777777777777777777777", "08", "09", "019", "0o17", "0b101", "1.5", ".5", "5.", "1e3", "1E3", "1e+3", "1e-7", "1e21", "1e308", "1e309", "5e-324", "2e-324",
+    "1.7976931348623157e308", "4.9e-324", "9007199254740993.0", "0.1", "0.000001", "0.0000001", "123456789.123456789", "1.0", "100", "1e0", "0e0", "0.0",
+    "00.5", "1.5e3", "12345678901234567890.5",
+]
+
+
+def literal_stream(chk, runtime):
+    """numeric literals at the edges of every representation (32 / 53 / 63 / 64 bits, each radix, exponent range): the value of the
+    generated code == the value JavaScript gives the same literal text"""
+    forms = ["%s", "-%s", "%s+1", "%s>0", "%s==%s+1", "[%s][0]"]
+    srcs = [(f % ((l,) * f.count("%s"))) for l in LITERALS for f in forms]
+    real = core.run_harness([core.req("expr", s_, "1:1", "0") for s_ in srcs])
+    reqs, idx = [], []
+    nrej = 0
+    for i, (s_, a) in enumerate(zip(srcs, real)):
+        f = a.split("\t")
+        if a.startswith("PANIC"):
+            chk.violation("input", f"expression parser/generator panicked on {s_!r}: {a}", src=s_, kind_="panic", real=a)
+            continue
+        if f[0] == "none" or len(f) < 13:
+            nrej += 1          # a spelling WXML does not have (0o17, 0b101, 08): nothing to compare
+            continue
+        reqs.append({"op": "evalgen", "runtime": runtime, "stmts": core.unesc(f[3]), "expr": core.unesc(f[4]), "data": {}, "scopes": {"s0": None}})
+        reqs.append({"op": "evalref", "expr": "(" + s_ + ")", "data": {}})
+        idx.append(i)
+    outs = core.run_node(reqs)
+    nb = 0
+    for k, i in enumerate(idx):
+        g, r = outs[2 * k], outs[2 * k + 1]
+        chk.case(("literal", srcs[i]), nontrivial=True)
+        if "error" in r or "throws" in r:
+            continue           # not a JavaScript literal in sloppy mode
+        if not ("value" in g and canon(g["value"]) == canon(r["value"])):
+            nb += 1
+            if nb <= 6:
+                chk.violation("input", f"{{{{ {srcs[i]} }}}} evaluates to {json.dumps(g)[:120]} in generated code, JavaScript gives {json.dumps(r)[:120]}",
+                              src=srcs[i], classification="literal-value", generated=g, reference=r)
+    chk.bump("oracle:literal-evaluations", len(idx))
+    chk.bump("oracle:literal-rejected-spellings", nrej)
+    chk.bump("oracle:literal-mismatches", nb)
 
 
 def replay(chk, path):
